@@ -74,7 +74,11 @@ def boolvar(e, name):
 def inputs_of(e, m):
   out = {}
   for k, t in e.notes.get('inputs', {}).items():
-    v = pysym.model_int(m, t)
+    try:
+      v = pysym.model_int(m, t)
+    except ValueError:
+      # e.g. an irrational algebraic number in a model over the reals
+      v = str(m.eval(t, model_completion=True))
     if z3.is_bv(t) and isinstance(v, int) and v >= 1 << (t.size() - 1):
       v -= 1 << t.size()
     out[k] = v
@@ -105,12 +109,12 @@ def TB(x, w):
   raise TypeError('no bv term for %r' % (x,))
 
 
-def overflow_free(rec, e, what):
+def overflow_free(rec, e, what, timeout_ms=30000):
   """Discharges the no-overflow side conditions of SBits arithmetic."""
   conds = e.notes.get('overflow', [])
   if not conds:
     return True
-  r, m, _ = e.prove(z3.And(*conds))
+  r, m, _ = e.prove(z3.And(*conds), timeout_ms=timeout_ms)
   if r == 'proved':
     rec.obligation('proved')
     return True
